@@ -348,6 +348,111 @@ func cmdResetFacts(repo, dir, typ, fn string) {
 	json.NewEncoder(os.Stdout).Encode(map[string][]string{"fields": fields, "assigned": as})
 }
 
+// entrypoints: every exported function or method of the given packages that returns an error:
+// does it install a deferred recover, does it index or slice a parameter without first
+// returning on len(param) == 0, and which functions does it call.
+func cmdEntryPoints(repo string, dirs []string) {
+	type ep struct {
+		Pkg            string   `json:"pkg"`
+		Recv           string   `json:"recv"`
+		Name           string   `json:"name"`
+		HasRecover     bool     `json:"hasRecover"`
+		UnguardedIndex bool     `json:"unguardedIndex"`
+		Callees        []string `json:"callees"`
+	}
+	var out []ep
+	for _, dir := range dirs {
+		fset, files := parseDir(filepath.Join(repo, dir))
+		for _, f := range files {
+			for _, d := range f.Decls {
+				fd, ok := d.(*ast.FuncDecl)
+				if !ok || fd.Body == nil || !fd.Name.IsExported() || fd.Type.Results == nil {
+					continue
+				}
+				returnsErr := false
+				for _, r := range fd.Type.Results.List {
+					if src(fset, r.Type) == "error" {
+						returnsErr = true
+					}
+				}
+				if !returnsErr {
+					continue
+				}
+				if strings.HasPrefix(fd.Name.Name, "Verif") {
+					continue // build-tagged verification hooks
+				}
+				e := ep{Pkg: dir, Name: fd.Name.Name}
+				if fd.Recv != nil && len(fd.Recv.List) == 1 {
+					e.Recv = strings.TrimPrefix(src(fset, fd.Recv.List[0].Type), "*")
+					if r := e.Recv; len(r) > 0 && !ast.IsExported(r) {
+						continue
+					}
+				}
+				params := map[string]bool{}
+				for _, p := range fd.Type.Params.List {
+					for _, n := range p.Names {
+						params[n.Name] = true
+					}
+				}
+				// parameters protected by a leading `if len(p) == 0 { return … }`
+				protected := map[string]bool{}
+				for _, st := range fd.Body.List {
+					ifs, ok := st.(*ast.IfStmt)
+					if !ok {
+						break
+					}
+					cond := src(fset, ifs.Cond)
+					for p := range params {
+						if cond == "len("+p+") == 0" {
+							if len(ifs.Body.List) > 0 {
+								if _, isRet := ifs.Body.List[len(ifs.Body.List)-1].(*ast.ReturnStmt); isRet {
+									protected[p] = true
+								}
+							}
+						}
+					}
+				}
+				seen := map[string]bool{}
+				ast.Inspect(fd.Body, func(n ast.Node) bool {
+					switch x := n.(type) {
+					case *ast.DeferStmt:
+						if fl, ok := x.Call.Fun.(*ast.FuncLit); ok && strings.Contains(src(fset, fl.Body), "recover()") {
+							e.HasRecover = true
+						}
+					case *ast.IndexExpr:
+						if id, ok := x.X.(*ast.Ident); ok && params[id.Name] && !protected[id.Name] {
+							e.UnguardedIndex = true
+						}
+					case *ast.SliceExpr:
+						if id, ok := x.X.(*ast.Ident); ok && params[id.Name] && !protected[id.Name] {
+							e.UnguardedIndex = true
+						}
+					case *ast.CallExpr:
+						name := ""
+						switch fn := x.Fun.(type) {
+						case *ast.Ident:
+							name = fn.Name
+						case *ast.SelectorExpr:
+							name = fn.Sel.Name
+						}
+						if name != "" && name != "recover" && name != "len" && name != "string" && !seen[name] {
+							seen[name] = true
+							e.Callees = append(e.Callees, name)
+						}
+					}
+					return true
+				})
+				sort.Strings(e.Callees)
+				out = append(out, e)
+			}
+		}
+	}
+	sort.Slice(out, func(i, j int) bool {
+		return out[i].Pkg+"."+out[i].Recv+"."+out[i].Name < out[j].Pkg+"."+out[j].Recv+"."+out[j].Name
+	})
+	json.NewEncoder(os.Stdout).Encode(out)
+}
+
 func main() {
 	if len(os.Args) < 3 {
 		fmt.Fprintln(os.Stderr, "usage: extract <cmd> <repo>")
@@ -360,6 +465,8 @@ func main() {
 		cmdSwitchCases(os.Args[2], os.Args[3], os.Args[4])
 	case "funcstmts":
 		cmdFuncStmts(os.Args[2], os.Args[3], os.Args[4])
+	case "entrypoints":
+		cmdEntryPoints(os.Args[2], os.Args[3:])
 	case "cacheproto":
 		cmdCacheProto(os.Args[2], os.Args[3], os.Args[4])
 	case "resetfacts":
